@@ -45,3 +45,29 @@ __CPROVER_ensures(__CPROVER_return_value.n == 2 && __CPROVER_return_value.d[0] =
 void h_vol_to_string(void) { const struct VolumeSelectorM *v; g_k = nondet_size_t(); __CPROVER_assume(g_k < 10); VolumeSelector_to_string(v); }
 void h_drive_prefix(void) { const struct VolumeSelectorM *v; g_k = nondet_size_t(); __CPROVER_assume(g_k < 10); afsp_drive_prefix(v); }
 void h_directory_prefix(void) { afsp_directory_prefix(nondet_char()); }
+
+/* ---- transform_string_with_regex: assembling the fully qualified name from the regex groups (1: drive, 2: directory,
+        3: name); strings are identified by where they come from ---- */
+enum { T_NONE, T_G1, T_G2, T_G3, T_DRIVE_DEFAULT, T_DIR_DEFAULT };
+struct astr { int tag; };
+static size_t groups_n;
+static _Bool h_group_empty[4];
+static struct { unsigned n; int part[4]; _Bool cleared; } OUTS;
+static _Bool group_empty(unsigned i) { __CPROVER_assert(i < groups_n && i < 4, "C07: vector index is below size()"); return h_group_empty[i < 4 ? i : 0]; }
+static struct astr group_at(unsigned i) { struct astr a; __CPROVER_assert(i < groups_n && i >= 1 && i <= 3, "C07: vector index is below size()"); a.tag = (i == 1) ? T_G1 : (i == 2) ? T_G2 : T_G3; return a; }
+static struct astr astr_tag(int t) { struct astr a; a.tag = t; return a; }
+static void out_clear(void) { OUTS.n = 0; OUTS.cleared = 1; }
+static void out_append(struct astr a) { if (OUTS.n < 4) OUTS.part[OUTS.n] = a.tag; OUTS.n++; }
+#include "afsp_assemble.inc"
+static bool afsp_assemble(void)
+__CPROVER_requires(groups_n >= 1 && groups_n <= 4 && g_diag < 1000 && OUTS.n == 0)
+__CPROVER_assigns(OUTS, g_diag)
+/* a name is required; an omitted drive or directory is replaced by the default prefix (--drive / --dir) */
+__CPROVER_ensures(__CPROVER_return_value == (groups_n > 3 && !h_group_empty[3]))
+__CPROVER_ensures(!__CPROVER_return_value ==> g_diag > __CPROVER_old(g_diag))
+__CPROVER_ensures(__CPROVER_return_value ==>
+                  (OUTS.cleared && OUTS.n == 3 &&
+                   OUTS.part[0] == ((groups_n > 1 && !h_group_empty[1]) ? T_G1 : T_DRIVE_DEFAULT) &&
+                   OUTS.part[1] == ((groups_n > 2 && !h_group_empty[2]) ? T_G2 : T_DIR_DEFAULT) &&
+                   OUTS.part[2] == T_G3));
+void h_assemble(void) { OUTS.n = 0; OUTS.cleared = 0; g_diag = 0; afsp_assemble(); }
